@@ -1089,11 +1089,45 @@ def delete_pointless_statements(source: str) -> str:
     """
     ast_tree = core.parse(source)
     safe_callables = parsing.safe_callable_names(ast_tree)
+    guarded_by_handler = _statements_in_try_bodies(ast_tree)
     for node in itertools.chain([ast_tree], parsing.iter_bodies_recursive(ast_tree)):
         for i, child in enumerate(node.body):
-            if not core.has_side_effect(child, safe_callables):
-                if i > 0 or not _is_pointless_string(child):  # Docstring
-                    yield child, None
+            if core.has_side_effect(child, safe_callables):
+                continue
+            if i == 0 and _is_pointless_string(child):  # Docstring
+                continue
+            # `try: unicode / except NameError`, `try: int(s) / except ValueError`, `try: d[k] / except KeyError`:
+            # inside a try body with handlers, raising is what the statement is there for
+            if child in guarded_by_handler and not _cannot_raise(child):
+                continue
+            yield child, None
+
+
+def _cannot_raise(node: ast.AST) -> bool:
+    """Statements that surely do not raise when executed: pass, and a constant used as a statement."""
+    return isinstance(node, ast.Pass) or core.match_template(node, ast.Expr(value=ast.Constant))
+
+
+def _statements_in_try_bodies(root: ast.AST) -> Collection[ast.AST]:
+    """All statements that are executed under the protection of an except clause.
+
+    These are the statements in the body of a try statement that has handlers, including
+    nested ones. Nested function definitions run later, so their bodies are not included.
+    """
+    guarded = set()
+    for try_node in core.walk(root, ast.Try):
+        if not try_node.handlers:
+            continue
+        left = list(try_node.body)
+        while left:
+            node = left.pop()
+            if isinstance(node, ast.stmt):
+                guarded.add(node)
+            if isinstance(node, (ast.FunctionDef, ast.AsyncFunctionDef, ast.Lambda)):
+                continue
+            left.extend(ast.iter_child_nodes(node))
+
+    return guarded
 
 
 def _iter_unreachable_nodes(body: Iterable[ast.AST]) -> Iterable[ast.AST]:
